@@ -290,3 +290,29 @@ func CorrectUTF8(src []byte, repl []byte) []byte {
 	}
 	return out
 }
+
+// UnterminatedStringQuirk reports whether doc matches the shape of the listed
+// finding "unterminated string accepted when its length is a multiple of the
+// SIMD block": the document ends inside a string literal and the number of
+// bytes after that literal's opening quote is 0 or 1 modulo 32 (and >= 32).
+func UnterminatedStringQuirk(doc []byte) bool {
+	i, n := 0, len(doc)
+	start := -1
+	for i < n {
+		if doc[i] != '"' {
+			i++
+			continue
+		}
+		e := scanStringLenient(doc, i)
+		if e < 0 {
+			start = i
+			break
+		}
+		i = e
+	}
+	if start < 0 {
+		return false
+	}
+	rest := n - start - 1
+	return rest >= 32 && (rest%32 == 0 || rest%32 == 1)
+}
